@@ -249,3 +249,11 @@ def s_int_store_truncates(a, b, v):
     out[5] = -7 / 2
     out[6] = 9 / 2
     return out
+
+
+def s_average_weights(a, b, v):
+    m = np.arange(15).reshape(5, 3) + a[:, None]
+    w = np.array([1, 2, 1, 4, 2])
+    r = np.average(m * 10, axis=0, weights=w) * 10
+    s = np.average(a * w.sum(), weights=w)
+    return np.hstack([r, np.array([s])])
